@@ -856,12 +856,16 @@ func (vc *VC) specCall(env *Env, x *SCall) (Term, types.Type) {
 		}
 		arr := vc.get(env.st, name, casSort)
 		return Select(Select(arr, Root(p)), PathOf(p)), boolT
-	case "locked", "lockcount":
+	case "locked", "lockcount", "wakes":
 		need(1)
 		if !vc.trackLocks {
 			env.fail("%s used but lock tracking is off", id.Name)
 		}
 		p, _ := vc.specExpr(env, x.Args[0])
+		if id.Name == "wakes" {
+			// number of Broadcast / Signal calls this function has made on the condition variable p points to
+			return Select(Select(vc.get(env.st, "W_wakes", lockCntSort), Root(p)), PathOf(p)), types.Typ[types.Int]
+		}
 		if id.Name == "locked" {
 			return Select(Select(vc.get(env.st, "W_lockheld", lockHeldSort), Root(p)), PathOf(p)), boolT
 		}
